@@ -165,6 +165,9 @@ def _one(prop: str, kind: str, name: str, gen, expect_keys: Optional[List[str]])
             return {"kind": kind, "name": name, "status": "skipped (does not apply to the current tree)"}
         rc, out = _run(prop, d)
         fails = [l.strip() for l in out.splitlines() if l.strip().startswith("FAIL")]
+        if kind == "seed-known-miss":
+            return {"kind": kind, "name": name, "status": {1: "fired (now detected)", 2: "analysis-error (not decided on this shape)", 0: "silent"}.get(rc, str(rc)),
+                    "ok": rc != 0, "reported": fails[:1]}
         if kind == "seed":
             named = [k for k in (expect_keys or []) if any(k in f for f in fails)]
             ok = rc == 1 and (not expect_keys or bool(named))
@@ -187,7 +190,10 @@ def run_selftest(prop: str) -> Dict[str, Any]:
         keys = []
         for inst in meta.get("rule_instances", {}).get(prop, []):
             keys.append(inst.split(" [")[0])          # "Cxx.Rn construct"
-        jobs.append(("seed", sd.name, v_patch(patch), keys))
+        if meta.get("detected_by_own_property_check") is False:
+            jobs.append(("seed-known-miss", sd.name, v_patch(patch), keys))   # recorded limitation: must at least not pass silently
+        else:
+            jobs.append(("seed", sd.name, v_patch(patch), keys))
     for fx in sorted(FIXTURES.glob(f"{prop}-*.diff")):
         jobs.append(("seed", "fixture:" + fx.stem, v_patch(fx), []))
     jobs.append(("benign", "ast.unparse round trip of every module", v_unparse, None))
